@@ -141,6 +141,7 @@ def chk_case(inp, c):
     for k in set(inp["classes"]):
         c.cell("class=" + k)
     Barg = B[0] if (inp["rank1"] and inp["api"] != "register_targets+fit()") else B
+    del c.events[:]          # only the events of the judged call (re-registration clauses make earlier calls)
     out = _run(c, inp, Barg, W, dict(kw))
     c.require(isinstance(out, tuple) and len(out) == 2, "returns (X, B_pred)", mechanism="return-type")
     if not (isinstance(out, tuple) and len(out) == 2):
